@@ -110,3 +110,37 @@ class ScoreColumn(BaseEstimator):
     def predict_proba(self, X):
         s = self._col(X)
         return np.column_stack([1 - s, s])
+
+
+class ScoreColumnMulti(BaseEstimator):
+    """Like ScoreColumn, but only the ``primary`` method returns the raw column; the other prediction methods
+    return it on a different, order-reversing scale (1 - x).  ThresholdOptimizer must therefore use, at fit
+    *and* at predict time, exactly the method it was told to use ("auto" resolves to predict_proba)."""
+
+    def __init__(self, primary="predict", col=0):
+        self.primary = primary
+        self.col = col
+
+    def fit(self, X, y=None, **kwargs):
+        self.fitted_ = True
+        return self
+
+    def __sklearn_is_fitted__(self):
+        return True
+
+    def _col(self, X, which):
+        if isinstance(X, pd.DataFrame):
+            s = X.iloc[:, self.col].to_numpy(dtype=float)
+        else:
+            s = np.asarray(X, dtype=float)[:, self.col]
+        return s if which == self.primary else 1.0 - s
+
+    def predict(self, X):
+        return self._col(X, "predict")
+
+    def decision_function(self, X):
+        return self._col(X, "decision_function")
+
+    def predict_proba(self, X):
+        s = self._col(X, "predict_proba")
+        return np.column_stack([1 - s, s])
